@@ -72,7 +72,7 @@ class RewardWorld(World):
         self.owner, self.pending, self.hub = I.S('owner_addr'), I.S('pending_owner'), I.S('hub_contract')
         self.dispatcher, self.bsei_token = I.S('dispatcher_contract'), I.S('bsei_token')
         self.reward_denom = I.S('uusd')
-        self.G = self.iv('global_index', 0, U128_MAX)
+        self.G = self.iv('global_index', 0, 10 ** 36)    # E1: cumulative reward per bSei <= 1e18 coins
         self.total_balance = self.iv('total_balance', 0, CAP)
         self.prev_reward_balance = self.iv('prev_reward_balance', 0, CAP)
         self.bank = self.iv('reward_bank_balance', 0, CAP)
